@@ -15,8 +15,25 @@ def judge_fit(pages):
             continue
         top = min(it[1] for it in inflow)
         for kind, y, h, w, _ in inflow:
-            if y + h > pg['height'] + EPS and y > top + EPS:
+            # first content = nothing in flow ends at or above its top
+            preceded = any(h2 > 0 and y2 + h2 <= y + EPS for _, y2, h2, _, _ in inflow)
+            if y + h > pg['height'] + EPS and preceded:
                 bad.append(('ends-below-page-bottom', dict(page=pi, kind=kind, y=y, h=h, word=w, page_height=pg['height'])))
+        # a block's own bottom padding/border also fits, unless it holds the first content of the page or a line
+        # that legitimately overflows
+        first_idx = next((i for i, it in enumerate(pg['items']) if it[4] and it[1] <= top + EPS), None)
+        for by, bh, a, b, deco, nlines, orphans, widows, bi in pg.get('blocks', ()):
+            # only the box's own bottom padding/border is outside: its content ends on the page
+            if by + bh > pg['height'] + EPS and deco > 0 and by + bh - deco <= pg['height'] + EPS:
+                inner = [it for it in pg['items'][a:b] if it[4]]
+                if not inner:
+                    continue
+                holds_first = first_idx is not None and a <= first_idx < b
+                if holds_first and not (nlines >= orphans + widows and bi == 'auto'):
+                    # first content of the page and no earlier legal break inside it: unavoidable
+                    continue
+                bad.append(('block-decoration-below-page-bottom',
+                            dict(page=pi, kind='block', y=by, h=bh, page_height=pg['height'], lines=nlines)))
     return bad
 
 
@@ -40,6 +57,23 @@ def judge_progress(pages, leaves):
     if empty > len(leaves) + 2:
         bad.append(('too-many-pages-without-content', dict(empty=empty, leaves=len(leaves))))
     return bad
+
+
+def deco_document(rng):
+    g = widegen.G(rng, set())
+    H = rng.choice([40, 50, 60, 80, 100])
+    parts = []
+    for _ in range(rng.choice([1, 2, 3])):
+        ws = g.words(rng.choice([4, 6, 9, 12]))
+        g.leaf(ws, 'para', ['deco'])
+        st = 'padding-bottom:%dpx;border-bottom:%dpx solid;margin-bottom:%dpx' % (
+            rng.choice([0, 3, 5, 10]), rng.choice([0, 1, 4]), rng.choice([0, 5]))
+        if rng.random() < 0.3:
+            st += ';orphans:%d;widows:%d' % (rng.choice([1, 2]), rng.choice([1, 2]))
+        parts.append('<p style="%s">%s</p>' % (st, '<br>'.join(ws)))
+    html = ('<style>@page{size:100px %dpx; margin:0} html{font-family:weasyprint;font-size:10px;line-height:10px}'
+            'body{margin:0} p{margin:0}</style>' % H) + ''.join(parts)
+    return html, g.leaves, H
 
 
 def check(run):
@@ -73,8 +107,9 @@ def check(run):
                         'fits_b on the implementation pages', short_pages=sum(1 for d, _ in res if d['H'] < 10))
     except RuntimeError as exc:
         run.oblige('corr:frag2-render', False, str(exc))
-    # ---- wide monitor
+    # ---- wide monitor (+ long paragraphs with bottom padding/border, split over pages)
     docs = [widegen.document(rng, widegen.ALL_FEATS) for _ in range(2000 if thorough else 350)]
+    docs += [deco_document(rng) for _ in range(600 if thorough else 120)]
     outs = common.run_impl('impl_wide', 'render_fit', [{'html': h} for h, _, _ in docs], limit=90)
     nitems = 0
     keys = []
